@@ -394,6 +394,34 @@ def rule_f(ctx: Ctx):
         check_literals(ctx, "C02", env, sl, root, T.MASK[cname], "mask", "tighter", ids=("C02.f", "C02.f"))
 
 
+def rule_g(ctx: Ctx, env: EnvA):
+    """C02.g every wait makes progress: the no-op (wait) column of an unfinished instance is closed while no job is in
+    process.  A wait moves the clock to the next release; with nothing in process there is no release, so an open wait
+    column there lets a mask-confined policy wait for ever (the step bound `one step per operation plus one per wait`
+    counts one wait per released operation)."""
+    sl, root = mask_root(env, "recompute")
+    ctx.fn(sl.fi)
+    r = nf.strip(root)
+    if nf._fn(r) != "torch.cat":
+        raise AnalysisError(f"{env.name}.get_action_mask: mask is not cat((no_op_mask, job columns))")
+    items = nf._seq_items(r.args[1])
+    if not items:
+        raise AnalysisError(f"{env.name}.get_action_mask: empty cat")
+
+    def assume(n):
+        s = nf.strip(n, True)
+        if s.op == "cell0" and s.args[1] == "done":
+            return False
+        if s.op == "meth" and s.args[1] == "any" and nf.strip(s.args[0]).op == "cell0" and nf.strip(s.args[0]).args[1] == "job_in_process":
+            return False
+        return None
+
+    v = nf.kleene(items[0], assume)
+    ctx.ob("C02.g", f"{env.name}:wait-needs-a-job-in-process", v is False, sl.where,
+           f"no-op column {vg.show(items[0], 5)} evaluates to {v} under done=False, job_in_process.any()=False (must be False in every configuration)",
+           construct=f"{sl.fi.qualname}:wait-column")
+
+
 def run(ctx: Ctx):
     rule_f(ctx)
     for cname, path in T.ALL_ENVS.items():
@@ -409,6 +437,7 @@ def run(ctx: Ctx):
         rule_c(ctx, env)
         if cname in ("FJSPEnv", "JSSPEnv"):
             rule_d(ctx, env)
+            rule_g(ctx, env)
     rule_e(ctx)
 
 
